@@ -64,8 +64,8 @@ example : (3 - 1) * 5 ≠ 3 * (5 - 1) := by decide
 theorem full_is_residual_cov (n : Nat) (x : Fin n → Row K) (dof : K) (p j k : Nat) :
     covFromResiduals .full (List.ofFn x) (some dof) p j k
       = (∑ i, (x i j - (∑ i', x i' j) / (n : K)) * (x i k - (∑ i', x i' k) / (n : K))) / dof := by
-  simp only [covFromResiduals, estimate2, estimateC, covFullC, fullNorm, gram, demean, colMean, colSum,
-    Option.getD_some, List.map_map, List.map_ofFn, List.sum_ofFn, List.length_ofFn]
+  simp only [covFromResiduals, estimate2, estimateC_full, dofPick_eq, covFullC, fullNorm, gram, demean,
+    colMean, colSum, Option.getD_some, List.map_map, List.map_ofFn, List.sum_ofFn, List.length_ofFn]
   rfl
 
 /-- … and with `dof=None` the divisor is `n − 1` -/
@@ -73,15 +73,17 @@ theorem full_is_residual_cov_natural_dof (n : Nat) (x : Fin n → Row K) (p j k 
     covFromResiduals .full (List.ofFn x) none p j k
       = (∑ i, (x i j - (∑ i', x i' j) / (n : K)) * (x i k - (∑ i', x i' k) / (n : K)))
         / ((n - 1 : Nat) : K) := by
-  simp only [covFromResiduals, estimate2, estimateC, covFullC, fullNorm, gram, demean, colMean, colSum,
-    Option.getD_none, List.map_map, List.map_ofFn, List.sum_ofFn, List.length_ofFn, dofResiduals]
+  simp only [covFromResiduals, estimate2, estimateC_full, dofPick_eq, covFullC, fullNorm, gram, demean,
+    colMean, colSum, Option.getD_none, List.map_map, List.map_ofFn, List.sum_ofFn, List.length_ofFn,
+    dofResiduals]
   rfl
 
 /-- 'diag' is the diagonal of 'full' (same residuals, same dof), zero elsewhere -/
 theorem diag_is_diagonal_of_full (rows : List (Row K)) (dof : Option K) (p j k : Nat) :
     covFromResiduals .diag rows dof p j k
       = if j = k then covFromResiduals .full rows dof p j j else 0 := by
-  simp only [covFromResiduals, estimate2, estimateC, varianceC, covFullC, fullNorm]
+  simp only [covFromResiduals, estimate2, estimateC_full, estimateC_diag, varianceC, varNorm, covFullC,
+    fullNorm]
 
 /-! ### Schäfer–Strimmer shrinkage ('shrinkage_diag') -/
 
@@ -91,14 +93,18 @@ theorem sdiag_is_convex_combination (rows : List (Row K)) (dof : K) (p j k : Nat
     covSDiagC rows dof p j k
       = sdLambda rows dof p * (if j = k then covFullC rows dof j j else 0)
         + (1 - sdLambda rows dof p) * covFullC rows dof j k := by
-  unfold covSDiagC covSDiagEntry ssShrink ssScaling sdS ssS covFullC fullNorm delta
+  unfold covSDiagC covSDiagEntry
+  rw [ssTail_eq]
+  unfold ssShrink ssScaling ssMask sdS ssS covFullC fullNorm delta sdLambda
   by_cases h : j = k
   · subst h; simp; ring
   · simp [h]; ring
 
 theorem sdiag_intensity_mem_unit (rows : List (Row K)) (dof : K) (p : Nat) :
     0 ≤ sdLambda rows dof p ∧ sdLambda rows dof p ≤ 1 := by
-  unfold sdLambda ssClip ssLambRaw
+  unfold sdLambda
+  rw [ssLambda_eq]
+  unfold ssClip ssLambRaw
   simp only [Nat.cast_one, Nat.cast_zero]
   split
   · exact ⟨le_max_right _ _, max_le (min_le_right _ _) zero_le_one⟩
@@ -161,7 +167,10 @@ theorem eye_is_convex_combination (rows : List (Row K)) (hne : rows ≠ []) (dof
     unfold covFullC fullNorm eyeS lwS
     field_simp
   rw [hT, hS]
-  unfold covEyeC covEyeEntry lwRescale lwCombine eyeLambda
+  unfold covEyeC covEyeEntry
+  rw [lwTail_eq]
+  unfold lwRescale lwCombine eyeLambda eyeB2
+  simp only [Nat.cast_zero]
   by_cases hd : 0 < eyeD2 rows p
   · have hd' : eyeD2 rows p ≠ 0 := ne_of_gt hd
     simp only [hd, if_true]
@@ -359,8 +368,8 @@ theorem unbalanced_full_is_pooled_cov (obs : List (Obs K)) (p j k : Nat) :
         / ((obs.length - (uniq (labels obs)).length : Nat) : K) := by
   unfold covFromUnbalanced
   rw [(unbalanced_residuals_centered obs 0).2]
-  simp only [estimateC, covFullC, fullNorm, gram, residUnb, List.map_map, Option.getD_none, dofUnbalanced,
-    condMean, colMean, colSum, groupRows, List.length_map]
+  simp only [estimateC_full, dofPick_eq, dofPickUnb_eq, covFullC, fullNorm, gram, residUnb, List.map_map,
+    Option.getD_none, Option.getD_some, dofUnbalanced, condMean, colMean, colSum, groupRows, List.length_map]
   rfl
 
 /-- on every balanced design (the only ones `cov_from_measurements` accepts) the
@@ -379,7 +388,11 @@ theorem measurements_eq_unbalanced_on_balanced (m : Method) (obs : List (Obs K))
       = dofUnbalanced obs.length (uniq (labels obs)).length := by
     rw [hlen, length_eq_of_balanced obs R hb]
     exact (dof_balanced _ _).2
-  rw [hdof]
+  have hpick : dofPick dof ((dofTensor (groups obs).length R : Nat) : K)
+      = dofPick (some (dofPickUnb dof obs.length (uniq (labels obs)).length))
+          ((dofResiduals obs.length : Nat) : K) := by
+    rw [dofPick_eq, dofPick_eq, dofPickUnb_eq, hdof]; rfl
+  rw [hpick]
   apply estimateC_congr
   · funext j k; exact sum_demean3_groups obs (fun r => r j * r k)
   · funext j k; exact sum_demean3_groups obs (fun r => (r j * r k) * (r j * r k))
@@ -437,6 +450,144 @@ theorem measurements_perm (m : Method) (o1 o2 : List (Obs K)) (h : o1.Perm o2) (
   rw [measurements_eq_unbalanced_on_balanced m o1 R1 hb1,
     measurements_eq_unbalanced_on_balanced m o2 R2 hb2, unbalanced_perm m o1 o2 h]
 
+/-! ### Condition relabelling -/
+
+/-- the same dataset with every condition label `c` renamed to `f c` -/
+def relabel (f : Nat → Nat) (obs : List (Obs K)) : List (Obs K) := obs.map (fun o => (f o.1, o.2))
+
+theorem groupRows_relabel (f : Nat → Nat) (hf : Function.Injective f) (obs : List (Obs K)) (c : Nat) :
+    groupRows (relabel f obs) (f c) = groupRows obs c := by
+  unfold groupRows relabel
+  rw [List.filter_map, List.map_map]
+  have : ((fun (o : Obs K) => o.1 == f c) ∘ fun (o : Obs K) => (f o.1, o.2)) = fun o => o.1 == c := by
+    funext o
+    show (f o.1 == f c) = (o.1 == c)
+    by_cases h : o.1 = c
+    · simp [h]
+    · have : f o.1 ≠ f c := fun h' => h (hf h')
+      simp [h, this]
+  rw [this]
+  apply List.map_congr_left
+  intro o _; rfl
+
+theorem labels_relabel (f : Nat → Nat) (obs : List (Obs K)) :
+    labels (relabel f obs) = (labels obs).map f := by
+  unfold labels relabel; rw [List.map_map, List.map_map]; rfl
+
+/-- the names of the conditions do not matter, only which observations share one: renaming
+    the labels by any injective map leaves `cov_from_unbalanced` unchanged (every design,
+    method, dof) — together with `unbalanced_perm` this is "any re-ordering and re-coding of
+    the observation descriptor" -/
+theorem unbalanced_relabel (m : Method) (obs : List (Obs K)) (f : Nat → Nat)
+    (hf : Function.Injective f) (dof : Option K) (p : Nat) :
+    covFromUnbalanced m (relabel f obs) dof p = covFromUnbalanced m obs dof p := by
+  have hr : residUnb (relabel f obs) = residUnb obs := by
+    unfold residUnb
+    conv_lhs => rw [show relabel f obs = obs.map (fun o => (f o.1, o.2)) from rfl, List.map_map]
+    apply List.map_congr_left
+    intro o _
+    funext j
+    show o.2 j - colMean (groupRows (obs.map fun o => (f o.1, o.2)) (f o.1)) j = _
+    rw [show (obs.map fun o => (f o.1, o.2)) = relabel f obs from rfl, groupRows_relabel f hf]
+  have hl : (relabel f obs).length = obs.length := by simp [relabel]
+  have hu : (uniq (labels (relabel f obs))).length = (uniq (labels obs)).length := by
+    rw [labels_relabel, uniq_map_inj f hf, List.length_map]
+  unfold covFromUnbalanced
+  rw [hr, hl, hu]
+
+/-- … and `cov_from_measurements` (same grouping, same blocks in the same order, so the same
+    acceptance / `ValueError` and the same estimate) -/
+theorem measurements_relabel (m : Method) (obs : List (Obs K)) (f : Nat → Nat)
+    (hf : Function.Injective f) (dof : Option K) (p : Nat) :
+    covFromMeasurements m (relabel f obs) dof p = covFromMeasurements m obs dof p := by
+  have hg : groups (relabel f obs) = groups obs := by
+    unfold groups
+    rw [labels_relabel, uniq_map_inj f hf, List.map_map]
+    apply List.map_congr_left
+    intro c _
+    exact groupRows_relabel f hf obs c
+  unfold covFromMeasurements
+  rw [hg]
+
+/-! ### Degenerate inputs: guards of the two shrinkage estimators -/
+
+/-- when the Ledoit–Wolf `d2` is not positive (the sample covariance already equals its
+    target, e.g. one channel) the estimate is the 'full' covariance *with the stated dof* —
+    the `* n / dof` rescale applies to the `else` branch too -/
+theorem eye_unshrunk_when_target_reached (rows : List (Row K)) (hne : rows ≠ []) (dof : K) (p : Nat)
+    (hd : ¬ 0 < eyeD2 rows p) (j k : Nat) :
+    covEyeC rows dof p j k = covFullC rows dof j k ∧ eyeLambda rows p = 0 := by
+  have hl : eyeLambda rows p = 0 := by unfold eyeLambda; simp [hd]
+  refine ⟨?_, hl⟩
+  rw [eye_is_convex_combination rows hne, hl]; ring
+
+/-- a constant channel (no positive variance; in the source the correlations are then NaN and
+    `denom > 0` is False): the Schäfer–Strimmer estimate is the unshrunk 'full' covariance,
+    intensity 0 -/
+theorem sdiag_constant_channel_unshrunk (rows : List (Row K)) (dof : K) (p : Nat)
+    (hdeg : sdDegenerate rows dof p = true) (j k : Nat) :
+    covSDiagC rows dof p j k = covFullC rows dof j k ∧ sdLambda rows dof p = 0 := by
+  have hl : sdLambda rows dof p = 0 := by
+    unfold sdLambda sdDenG
+    rw [ssLambda_eq]; simp [hdeg]
+  refine ⟨?_, hl⟩
+  rw [sdiag_is_convex_combination, hl]; ring
+
+/-- `sdDegenerate` is exactly "some channel `j < p` has no positive variance" -/
+theorem sdDegenerate_iff (rows : List (Row K)) (dof : K) (p : Nat) :
+    sdDegenerate rows dof p = true ↔ ∃ j, j < p ∧ ¬ 0 < covFullC rows dof j j := by
+  unfold sdDegenerate sdVar sdS ssS covFullC fullNorm
+  simp [List.any_eq_true]
+
+/-! ### Source skeletons (statement level), dispatch, defaults, layout, writes -/
+
+/-- the statement-level leaves derived from the current source agree with the shape the
+    theorems above rely on: in `_covariance_eye` the `min`, the guard `d2 > 0`, the
+    combination and the rescale *after* the guard; in `_covariance_diag` the guard
+    `denom > 0`, the clip to [0,1], `else 0`, and `s * (eye + (1 - lamb) * mask)` -/
+theorem source_skeletons (s d2 b2raw m e n dof num den mk : K) :
+    lwTail s d2 b2raw m e n dof
+      = (if 0 < d2 then (min d2 b2raw / d2 * m * e + (d2 - min d2 b2raw) / d2 * s) else s) * n / dof ∧
+    ssLambda num den = (if 0 < den then max (min (num / den) 1) 0 else 0) ∧
+    ssTail num den s e mk = s * (e + (1 - ssLambda num den) * mk) ∧
+    ssMask e = 1 - e ∧ varNorm s dof = s / dof ∧
+    lwB2term s n m = s / n - m * m ∧ lwD2term s m e = (s - m * e) * (s - m * e) ∧
+    ssDenTerm s = s * s := by
+  refine ⟨?_, ?_, ?_, ?_, rfl, rfl, rfl, rfl⟩
+  · rw [lwTail_eq]; unfold lwRescale lwCombine lwB2min; simp only [Nat.cast_zero]
+  · rw [ssLambda_eq]; unfold ssClip ssLambRaw; simp only [Nat.cast_zero, Nat.cast_one]
+  · rw [ssTail_eq]; unfold ssShrink ssScaling; simp only [Nat.cast_one]
+  · unfold ssMask; simp only [Nat.cast_one]
+
+/-- the `if method == …` chain sends each method string to its estimator -/
+theorem dispatch_table (rows : List (Row K)) (dof : K) (p : Nat) :
+    estimateC .full rows dof p = covFullC rows dof ∧ estimateC .diag rows dof p = varianceC rows dof ∧
+    estimateC .eye rows dof p = covEyeC rows dof p ∧ estimateC .sdiag rows dof p = covSDiagC rows dof p :=
+  ⟨rfl, rfl, rfl, rfl⟩
+
+/-- `dof=None` means the natural dof, a passed dof is used as it is — in `_estimate_covariance`
+    and in `cov_from_unbalanced` (observations − conditions) -/
+theorem dof_default (d nat : K) (n c : Nat) :
+    dofPick none nat = nat ∧ dofPick (some d) nat = d ∧
+    dofPickUnb (none : Option K) n c = ((n - c : Nat) : K) ∧ dofPickUnb (some d) n c = d :=
+  ⟨rfl, rfl, rfl, rfl⟩
+
+/-- axis bookkeeping of the measurement tensor, from the constants of the current source:
+    the tensor is (condition, channel, repetition); `_check_demean` averages over the
+    repetition axis; `shape[0]`, `shape[2]` in its dof are #conditions, #repetitions; after the
+    transpose the channel axis is last and the two others come first (in either order: the
+    estimate does not depend on the row order, `estimate_perm`), so the reshape to
+    `(shape[0] * shape[2], shape[1])` lists one residual row per (condition, repetition)
+    (`demean3`); 2-D input is demeaned over rows -/
+theorem tensor_layout :
+    tensorAxes[demeanAxis3d]? = some 1 ∧ tensorAxes[0]? = some 0 ∧ tensorAxes[2]? = some 1 ∧
+    (tensorAxesT = [0, 1, 2] ∨ tensorAxesT = [1, 0, 2]) ∧ demeanAxis2d = 0 := by
+  decide
+
+/-- no statement of the anchored functions stores into (a view of) one of its array / dataset
+    parameters (static analysis of the current source in harness/leaves/C14.py, see there) -/
+theorem inputs_not_written : inputWrites = 0 := by decide
+
 /-! ### Precision -/
 
 /-- whatever the model returns as precision is the matrix inverse of the covariance:
@@ -476,6 +627,63 @@ theorem prec_is_inverse (cov B : Mat K) (p : Nat) (h : precOf cov p = some B) :
   · exact (Matrix.inv_eq_right_inv hmul).symm
   · exact mul_eq_one_comm.mp hmul
 
+/-- the model returns no precision for a singular covariance (`np.linalg.inv` raises
+    `LinAlgError`, or returns a meaningless matrix when rounding hides the zero pivot) -/
+theorem singular_has_no_precision (cov : Mat K) (p : Nat)
+    (hdet : (Matrix.of fun (j k : Fin p) => cov j k).det = 0) : precOf cov p = none := by
+  cases h : precOf cov p with
+  | none => rfl
+  | some B =>
+    exfalso
+    have h3 := (prec_is_inverse cov B p h).2.2
+    have := congrArg Matrix.det h3
+    rw [Matrix.det_mul, hdet, mul_zero, Matrix.det_one] at this
+    exact zero_ne_one this
+
+/-- a concrete class of exactly singular estimates: if channel `j` is constant (zero residual
+    sum of squares) then 'full', 'diag' and 'shrinkage_diag' have a zero row, so the model
+    returns no precision for them (any dof) -/
+theorem constant_channel_singular (rows : List (Row K)) (dof : K) (p j : Nat) (hj : j < p)
+    (h0 : gram rows j j = 0) :
+    precOf (covFullC rows dof) p = none ∧ precOf (varianceC rows dof) p = none ∧
+    precOf (covSDiagC rows dof p) p = none := by
+  have hz : ∀ r ∈ rows, r j = 0 := by
+    intro r hr
+    have hnn : ∀ x ∈ rows.map (fun r => r j * r j), 0 ≤ x := by
+      intro x hx; rcases List.mem_map.mp hx with ⟨r', _, rfl⟩; exact mul_self_nonneg _
+    have := List.all_zero_of_le_zero_le_of_sum_eq_zero hnn h0 (x := r j * r j)
+      (List.mem_map.mpr ⟨r, hr, rfl⟩)
+    exact mul_self_eq_zero.mp this
+  have hrow : ∀ k, gram rows j k = 0 := by
+    intro k
+    unfold gram
+    rw [← sum_map_zero' rows]
+    congr 1
+    apply List.map_congr_left
+    intro r hr; rw [hz r hr, zero_mul]
+  have hfull : precOf (covFullC rows dof) p = none := by
+    apply singular_has_no_precision
+    apply Matrix.det_eq_zero_of_row_eq_zero ⟨j, hj⟩
+    intro k
+    simp [covFullC, fullNorm, hrow]
+  refine ⟨hfull, ?_, ?_⟩
+  · apply singular_has_no_precision
+    apply Matrix.det_eq_zero_of_row_eq_zero ⟨j, hj⟩
+    intro k
+    simp [varianceC, varNorm, h0]
+  · have hdeg : sdDegenerate rows dof p = true := by
+      rw [sdDegenerate_iff]
+      exact ⟨j, hj, by simp [covFullC, fullNorm, h0]⟩
+    have : covSDiagC rows dof p = covFullC rows dof := by
+      funext a b; exact (sdiag_constant_channel_unshrunk rows dof p hdeg a b).1
+    rw [this]; exact hfull
+
+/-- kept visible: the converse — *every* invertible covariance gets a precision from the
+    model — would need the correctness of the Gauss–Jordan candidate generator, which is not
+    proved (the candidate is only ever used through its certificate) -/
+def prec_complete_full : Prop :=
+  ∀ (cov : Mat K) (p : Nat), (Matrix.of fun (j k : Fin p) => cov j k).det ≠ 0 → (precOf cov p).isSome
+
 /-! ### Non-vacuity: concrete objects meeting the hypotheses used above -/
 
 section examples
@@ -507,6 +715,18 @@ example : (precOf (covFullC exRows (2 : ℚ)) 2).isSome = true := by decide +ker
 example : ([3, 5] : List ℚ).length = ([exRows, exRows] : List (List (Row ℚ))).length := rfl
 -- `dof_wrong_iff`: positive sizes
 example : 0 < 3 ∧ 0 < 5 := by decide
+-- `unbalanced_relabel`, `measurements_relabel`: an injective renaming that reverses the order
+example : Function.Injective (fun c : Nat => if c < 100 then 99 - c else c) := by
+  intro a b h; simp only at h; split at h <;> split at h <;> omega
+/-- one channel constant, one not: `sdiag_constant_channel_unshrunk`, `constant_channel_singular` -/
+def exConst : List (Row ℚ) := [fun j => if j = 0 then 1 else 0, fun j => if j = 0 then -1 else 0]
+example : sdDegenerate exConst (1 : ℚ) 2 = true := by decide +kernel
+example : (1 : Nat) < 2 ∧ gram exConst 1 1 = (0 : ℚ) := by decide +kernel
+-- `eye_unshrunk_when_target_reached`: one channel
+example : exRows ≠ [] ∧ ¬ 0 < eyeD2 exRows 1 := by decide +kernel
+-- `singular_has_no_precision`: a singular 2 × 2 matrix
+example : (Matrix.of fun (j k : Fin 2) => (fun (_ _ : Nat) => (1 : ℚ)) j k).det = 0 := by
+  simp [Matrix.det_fin_two]
 
 end examples
 
